@@ -355,8 +355,46 @@ fn random_history_inner(rng: &mut Rng, steps: usize, universe: i32, st: &mut Spl
                 tag = "into_iter";
                 st.op(tag);
                 st.iterations += 1;
-                let style = rng.below(4);
+                let style = rng.below(5);
                 let old = std::mem::replace(&mut t, SplayTree::new(tcmp));
+                if style == 4 {
+                    // through an iterator adaptor (any of which the iterator may override) instead of next / next_back
+                    let want: Vec<(i32, i32)> = m.iter().map(|(a, b)| (*a, *b)).collect();
+                    let total = want.len();
+                    let kind = rng.below(9);
+                    let it = old.into_iter();
+                    let ok = match kind {
+                        0 => it.count() == total,
+                        1 => it.last().map(|(a, b)| (a.0, b.0)) == want.last().cloned(),
+                        2 => it.map(|(a, b)| (a.0, b.0)).collect::<Vec<_>>() == want,
+                        3 => it.rev().map(|(a, b)| (a.0, b.0)).collect::<Vec<_>>() == want.iter().rev().cloned().collect::<Vec<_>>(),
+                        4 => it.fold(0i64, |s, (a, _)| s.wrapping_mul(31).wrapping_add(a.0 as i64)) == want.iter().fold(0i64, |s, (a, _)| s.wrapping_mul(31).wrapping_add(*a as i64)),
+                        5 => it.rfold(0i64, |s, (a, _)| s.wrapping_mul(31).wrapping_add(a.0 as i64)) == want.iter().rfold(0i64, |s, (a, _)| s.wrapping_mul(31).wrapping_add(*a as i64)),
+                        6 => {
+                            let k = rng.below(total as u64 + 2) as usize;
+                            it.skip(k).map(|(a, b)| (a.0, b.0)).next() == want.get(k).cloned()
+                        }
+                        7 => {
+                            let k = rng.below(total as u64 + 2) as usize;
+                            let mut it = it;
+                            let got = it.nth_back(k).map(|(a, b)| (a.0, b.0));
+                            got == if k < total { Some(want[total - 1 - k]) } else { None }
+                        }
+                        _ => {
+                            let mut c = 0usize;
+                            it.for_each(|_| c += 1);
+                            c == total
+                        }
+                    };
+                    if !ok {
+                        fail!("consuming iteration through adaptor #{} disagrees with the reference {:?}", kind, want);
+                    }
+                    if live() != base_live + 1 {
+                        fail!("drop accounting after into_iter through adaptor #{}: {} tracked objects alive, expected only the probe key", kind, live() - base_live);
+                    }
+                    m.clear();
+                    continue;
+                }
                 let mut it = old.into_iter();
                 let mut front: Vec<(i32, i32)> = Vec::new();
                 let mut back: Vec<(i32, i32)> = Vec::new();
@@ -978,6 +1016,93 @@ pub fn c18_scenario(name: &str, n: usize) -> Result<String, String> {
             }
             Ok(format!("iterated {}", c))
         }
+        // consuming iteration through the iterator adaptors (any of which an implementation may override): every one of
+        // them must walk a chain-shaped tree without deep recursion, and return what the element sequence implies
+        "iter-adaptors" => {
+            let n32 = n as u32;
+            let which = parts.get(2).cloned().unwrap_or("count");
+            let t = build(style);
+            let ok = match which {
+                "count" => t.into_iter().count() == n,
+                "last" => t.into_iter().last().map(|x| x.0) == Some(n32 - 1),
+                "fold" => t.into_iter().fold(0u64, |s, (k, _)| s + k as u64) == (n as u64) * (n as u64 - 1) / 2,
+                "for_each" => {
+                    let mut c = 0usize;
+                    t.into_iter().for_each(|_| c += 1);
+                    c == n
+                }
+                "nth" => t.into_iter().nth(n / 2).map(|x| x.0) == Some(n32 / 2),
+                "rev-count" => t.into_iter().rev().count() == n,
+                "rev-last" => t.into_iter().rev().last().map(|x| x.0) == Some(0),
+                "rfold" => t.into_iter().rfold(0u64, |s, (k, _)| s + k as u64) == (n as u64) * (n as u64 - 1) / 2,
+                "nth_back" => t.into_iter().nth_back(n / 2).map(|x| x.0) == Some(n32 - 1 - n32 / 2),
+                "max" => t.into_iter().map(|x| x.0).max() == Some(n32 - 1),
+                "collect" => t.into_iter().map(|x| x.0).collect::<Vec<u32>>().len() == n,
+                "skip-step" => t.into_iter().skip(n / 3).step_by(7).count() == (n - n / 3 + 6) / 7,
+                "len" => {
+                    let it = t.into_iter();
+                    it.len() == n && it.size_hint() == (n, Some(n))
+                }
+                other => return Err(format!("unknown adaptor {}", other)),
+            };
+            if !ok {
+                return Err(format!("adaptor {} returned a wrong value", which));
+            }
+            Ok(format!("adaptor {} over {} keys", which, n))
+        }
+        // a tree whose VALUES are deep trees: the teardown of the outer tree drops inner trees while it is running
+        // (re-entrant teardown on one thread); also a deep tree owned by a thread-local, dropped while the thread exits
+        "nested" => {
+            type Inner = SplayTree<u32, (), fn(&u32, &u32) -> Ordering>;
+            let inner = |style: &str| -> Inner {
+                let mut t: Inner = SplayTree::new(|a: &u32, b: &u32| a.cmp(b));
+                for k in order(style, n) {
+                    t.insert(k, ());
+                }
+                t
+            };
+            let teardown = parts.get(2).cloned().unwrap_or("drop");
+            if teardown == "thread-local" {
+                thread_local! {
+                    static HELD: std::cell::RefCell<Option<SplayTree<u32, (), fn(&u32, &u32) -> Ordering>>> = const { std::cell::RefCell::new(None) };
+                }
+                let style = style.to_string();
+                let h = std::thread::Builder::new()
+                    .stack_size(2 * 1024 * 1024)
+                    .spawn(move || {
+                        let mut t: Inner = SplayTree::new(|a: &u32, b: &u32| a.cmp(b));
+                        let keys: Vec<u32> = if style == "desc" { (0..n as u32).rev().collect() } else { (0..n as u32).collect() };
+                        for k in keys {
+                            t.insert(k, ());
+                        }
+                        HELD.with(|s| *s.borrow_mut() = Some(t));
+                    })
+                    .map_err(|e| e.to_string())?;
+                h.join().map_err(|_| "thread holding a deep tree in a thread-local panicked".to_string())?;
+                return Ok("deep tree dropped at thread exit".into());
+            }
+            let mut outer: SplayTree<u32, Inner, fn(&u32, &u32) -> Ordering> = SplayTree::new(|a: &u32, b: &u32| a.cmp(b));
+            for i in 0..3u32 {
+                outer.insert(i, inner(if i % 2 == 0 { style } else { "desc" }));
+            }
+            match teardown {
+                "drop" => drop(outer),
+                "clear" => outer.clear(),
+                "iter-partial" => {
+                    let mut it = outer.into_iter();
+                    let first = it.next();
+                    drop(first);
+                    drop(it);
+                }
+                "replace" => {
+                    // replacing a value drops the old inner tree from inside insert()
+                    let old = outer.insert(1, inner("asc"));
+                    drop(old);
+                }
+                other => return Err(format!("unknown teardown {}", other)),
+            }
+            Ok(format!("nested trees of {} keys each, teardown {}", n, teardown))
+        }
         "iter-partial-drop" => {
             let t = build(style);
             let mut it = t.into_iter();
@@ -1042,9 +1167,17 @@ pub const C18_SCENARIOS: [&str; 22] = [
     "set-drop:asc",
     "set-drop:desc",
 ];
-/// insertion orders x lookup patterns x teardowns of the `shape` scenario
+/// insertion orders x lookup patterns x teardowns of the `shape` scenario, plus the iterator-adaptor and nested-tree scenarios
 pub fn c18_shape_scenarios() -> Vec<String> {
     let mut v = Vec::new();
+    for style in ["asc", "desc"] {
+        for adaptor in ["count", "last", "fold", "for_each", "nth", "rev-count", "rev-last", "rfold", "nth_back", "max", "collect", "skip-step", "len"] {
+            v.push(format!("iter-adaptors:{}:{}", style, adaptor));
+        }
+        for teardown in ["drop", "clear", "iter-partial", "replace", "thread-local"] {
+            v.push(format!("nested:{}:{}", style, teardown));
+        }
+    }
     for style in ["asc", "desc", "zigzag", "random"] {
         for lookups in ["none", "min", "max", "mid", "minmax", "mix", "nextprev", "walks"] {
             for teardown in ["drop", "clear", "iter-partial", "iter-fwd", "iter-bwd"] {
